@@ -1,7 +1,7 @@
 (* Property C12 -- segment iteration agrees with the '/'-split of the text.  Statements only. *)
 From Coq Require Import List NArith Bool Arith.
 Import ListNotations.
-Require Import V.Regex V.Parse V.ParseProofs V.PathSpec V.Splice V.Setters V.Iter V.IterProofs V.IterAll V.PathQ V.C12Proofs V.NormProofs V.PopProofs V.ParentProofs.
+Require Import V.Regex V.Parse V.ParseProofs V.PathSpec V.Splice V.Setters V.Iter V.IterProofs V.IterAll V.PathQ V.C12Proofs V.NormProofs V.PopProofs V.ParentProofs V.Rfc V.DirProofs.
 Local Open Scope nat_scope.
 
 (* A non-empty path is pfx ++ join l with pfx = "" or "/" and l its non-empty list of '/'-free
@@ -50,6 +50,11 @@ Print Assumptions C12_parent.
 Theorem C12_parent_or_empty : forall v, none_of [QM; HASH] v -> pq_parent_or_empty_text v = Some (parent_or_empty_text1 v).
 Proof. exact parent_or_empty_spec. Qed.
 Print Assumptions C12_parent_or_empty.
+
+(* directory(): for EVERY byte string, the text up to and including the last '/' ("" when there is none) *)
+Theorem C12_directory : forall p, pslice_text p (pq_directory p) = dir_of p.
+Proof. intros p. exact (proj1 (directory_is_dir_of p)). Qed.
+Print Assumptions C12_directory.
 
 (* joining the '/'-split reproduces the path (PathSpec) *)
 Theorem C12_join_split : forall p : str, join (split p) = p.
